@@ -141,6 +141,7 @@ pub trait HInput<'a>: Input<'a, Token: HTok, Span: HSpan> + Sized + 'a {
     // ----- primitives that need `ValueInput` -----
     fn any<E: HErr<'a, Self>>() -> Res<P<'a, Self, E>>;
     fn skip<E: HErr<'a, Self>>(n: usize) -> Res<P<'a, Self, E>>;
+    fn lazy<E: HErr<'a, Self>>(a: P<'a, Self, E>) -> Res<P<'a, Self, E>>;
     fn nested_delims<E: HErr<'a, Self>>(cv: &Self::Conv, s: u32, e: u32, others: &[(u32, u32)]) -> Res<P<'a, Self, E>>;
     fn one_of<E: HErr<'a, Self>>(ts: &[u32]) -> Res<P<'a, Self, E>>;
     fn none_of<E: HErr<'a, Self>>(ts: &[u32]) -> Res<P<'a, Self, E>>;
@@ -191,6 +192,9 @@ macro_rules! value_impl {
         fn skip<E: HErr<'a, Self>>(n: usize) -> Res<P<'a, Self, E>> {
             Ok(build::v_skip(n))
         }
+        fn lazy<E: HErr<'a, Self>>(a: P<'a, Self, E>) -> Res<P<'a, Self, E>> {
+            Ok(build::v_lazy(a))
+        }
         fn nested_delims<E: HErr<'a, Self>>(cv: &Self::Conv, s: u32, e: u32, others: &[(u32, u32)]) -> Res<P<'a, Self, E>> {
             build::v_nested_delims(cv, s, e, others)
         }
@@ -225,6 +229,9 @@ macro_rules! value_impl {
         }
         fn skip<E: HErr<'a, Self>>(_n: usize) -> Res<P<'a, Self, E>> {
             build::unsupported("Skip: input kind is not a ValueInput")
+        }
+        fn lazy<E: HErr<'a, Self>>(_a: P<'a, Self, E>) -> Res<P<'a, Self, E>> {
+            build::unsupported("Lazy: input kind is not a ValueInput")
         }
         fn nested_delims<E: HErr<'a, Self>>(_cv: &Self::Conv, _s: u32, _e: u32, _o: &[(u32, u32)]) -> Res<P<'a, Self, E>> {
             build::unsupported("NestedDelims: input kind is not a ValueInput")
